@@ -47,12 +47,37 @@ Inductive wobs :=
   | WStatus (status : Z)                               (* an error status *)
   | WResp (r : response) (body : bytes).
 
+(* one read of a big content: did it succeed, the descriptor's digest and size, the SHA-256 and
+   length the harness expects (of the whole content, or of the slice a range read names), the
+   SHA-256 and length of the bytes delivered (both equal to the expected ones for a resolve,
+   which delivers nothing) *)
+Record bigread := { br_ok : bool; br_ddigest : bytes; br_dsize : Z;
+                    br_want : bytes; br_wantlen : Z; br_got : bytes; br_gotlen : Z }.
+
+Definition bigread_ok (len : Z) (pushed : bytes) (r : bigread) : bool :=
+  br_ok r && beqb (br_ddigest r) pushed && (br_dsize r =? len)
+  && beqb (br_got r) (br_want r) && (br_gotlen r =? br_wantlen r).
+
+(* the specification: what was accepted is served; what was refused is not retrievable *)
+Definition big_ok (len : Z) (pushed : bytes) (push_ok : bool) (reads : list bigread) : bool :=
+  if push_ok then forallb (bigread_ok len pushed) reads
+  else forallb (fun r => negb (br_ok r)) reads.
+
 Inductive case :=
   | CHist (stack : N) (imm : bool) (orc : oracles) (subj_ok : list (bytes * bytes))
           (ops : list xop) (obs : list oresult)
   | CRead (kind : N) (o0 o1 : Z) (known : bytes) (resp : response) (body : list (bytes * N))
           (head : option response) (orc : oracles) (h512 : alist bytes) (obs : robs)
-  | CRange (src : option (Z * Z)) (hdr rd : bytes) (blob : option (desc * bytes)) (obs : wobs).
+  | CRange (src : option (Z * Z)) (hdr rd : bytes) (blob : option (desc * bytes)) (obs : wobs)
+  (* A content too large to be written into a case file (up to tens of MiB: the sizes at which
+     buffers, chunking, the client's in-memory threshold or a body limit could cut something
+     off).  The content is named by its length and its SHA-256 as computed by the harness; each
+     read by the length and SHA-256 of what it delivered and of the slice it should deliver.
+     The model's prediction is not an evaluation but the theorems C01_get_blob / C01_get_manifest /
+     C01_get_tag / C01_get_blob_range / C01_histories_through_hops, which hold for every length: a
+     well-formed push succeeds and every read returns the pushed bytes under the whole
+     content's descriptor. *)
+  | CBig (stack path : N) (len : Z) (pushed : bytes) (push_ok : bool) (reads : list bigread).
 
 (* ---------- oracle instantiation ---------- *)
 
@@ -170,6 +195,7 @@ Definition model_agrees (c : case) : bool :=
          | None => true
          end
       && range_agrees (range_model hdr rd blob) obs
+  | CBig _ _ len pushed push_ok reads => push_ok && big_ok len pushed push_ok reads
   end.
 
 Definition obs_ok (c : case) : bool :=
@@ -201,6 +227,7 @@ Definition obs_ok (c : case) : bool :=
           else true
       | _, _, _ => true
       end
+  | CBig _ _ len pushed push_ok reads => big_ok len pushed push_ok reads
   end.
 
 (* a case says something when a read returned data or a push was refused; when a reader was
@@ -220,6 +247,7 @@ Definition nontrivial (c : case) : bool :=
                          end) (combine ops obs)
   | CRead _ _ _ _ _ _ _ _ _ obs => match obs with RDone _ _ _ => true | _ => false end
   | CRange _ _ _ blob obs => match blob, obs with Some _, _ => true | _, _ => false end
+  | CBig _ _ _ _ _ reads => existsb br_ok reads
   end.
 
 (* ---------- soundness of the correspondence ---------- *)
@@ -393,7 +421,8 @@ Qed.
 
 Lemma corr_sound c : model_agrees c = true -> obs_ok c = true.
 Proof.
-  destruct c; [apply corr_hist | apply corr_read | apply corr_range].
+  destruct c; [apply corr_hist | apply corr_read | apply corr_range | ].
+  cbn. intros H. apply andb_true_iff in H as [_ H]. exact H.
 Qed.
 
 Definition mismatches (cs : list case) : list (N * bool) :=
